@@ -97,4 +97,6 @@ def run():
             s_dense = ref.partial_trace_entropy(rho, N, region)
             _need(abs(s_formula - s_dense) < 1e-9, 'entropy formula')
     _need(ref.gf2_rank(np.array([[1, 1, 0], [0, 1, 1], [1, 0, 1]])) == 2, 'gf2 rank')
+    for N, sd in ((3, 1), (7, 2), (20, 3)):
+        _need(ref.random_big_clifford(N, sd).is_valid(), 'random_big_clifford validity')
     return True
